@@ -87,6 +87,8 @@ class Report:
 
 def decl_key(d):
     """normal form of a declaration: family, inner type and the attribute on one line"""
+    if d.get('unknown'):
+        return decl_key_unknown(d)
     from . import corpus
     import copy
     attr = corpus.render_attr(copy.deepcopy(d), 0)   # render_attr records positions: work on a copy
@@ -819,7 +821,7 @@ def check_conversions(rep, g):
             # default expression without a Sigma value: compare with the constructor applied to the
             # argument term actually passed (shape only): returned values must be T(..) from ctor paths
             rets = [o for o in outs if o.kind == 'return']
-            ok = all(is_adt(o.ret) and o.ret[1] == g.adt['path'] for o in rets) and bool(rets)
+            ok = all(is_adt(o.ret) and o.ret[1] == g.adt['path'] for o in rets)   # (an invalid default leaves only the panicking path)
             rep.ob('R-DELEG', ok, g, 'Default::default returns a constructed T on every returning path', {'rets': [show(o.ret)[:120] for o in rets][:3]})
             continue
         ct = ctor_table(g, dt)
@@ -907,12 +909,22 @@ def check_from_str(rep, g):
 
 # ----------------------------------------------------------------------------- C04 / C10 serde
 
+def is_serde_trait(tr, name):
+    """serde's Serialize / Deserialize, however the crate is reachable from the analysed crate
+    (`serde::`, `_::_serde::` inside serde_derive's anonymous const, `serde::de::`)"""
+    return bool(tr) and re.search(r'(^|::|_)serde::(de::|ser::)?' + name + '$', tr) is not None
+
+
+def same_type_modulo_lifetimes(a, b):
+    f = lambda x: re.sub(r"'[A-Za-z_][A-Za-z0-9_]*", "'_", x)
+    return f(a) == f(b)
+
+
 def check_deserialize(rep, g):
     d = g.d
     ex = g.ex
     hv = g.has_validation()
-    imps = g.trait_impls('Deserialize') + g.trait_impls('de::Deserialize')
-    imps = [i for i in imps if i['trait'].startswith('serde')]
+    imps = [i for i in g.impls if is_serde_trait(i.get('trait'), 'Deserialize') and g.self_kind(i) == 'T']
     rep.ob('R-IMPL', len(imps) == (1 if 'Deserialize' in d['derives'] else 0), g, 'Deserialize impl present iff derived', {})
     for imp in imps:
         fn = g.impl_fn(imp, 'deserialize')
@@ -965,7 +977,8 @@ def check_deserialize(rep, g):
         if r is not None and len(r[2]) == 1 and r[2][0] == ('param', 2):
             c = ex.callees.get(r[1])
             inner_ty = g.F.tys(g.adt['variants'][0]['fields'][0]['ty'])
-            if c is not None and c.trait and c.trait.endswith('Deserialize') and c.name == 'deserialize' and c.gargs and g.F.tys(c.gargs[0]) == inner_ty:
+            if c is not None and c.trait and c.trait.endswith('Deserialize') and c.name == 'deserialize' and c.gargs and \
+                    same_type_modulo_lifetimes(g.F.tys(c.gargs[0]), inner_ty):
                 okr = True
         rep.ob('R-DESER', okr, g, 'visitor first deserializes the inner type from the given deserializer',
                {'first': [show(x)[:200] for x in firsts]})
@@ -1007,7 +1020,7 @@ def check_deserialize(rep, g):
 def check_serialize(rep, g):
     d = g.d
     ex = g.ex
-    imps = [i for i in g.trait_impls('Serialize') + g.trait_impls('ser::Serialize') if i['trait'].startswith('serde')]
+    imps = [i for i in g.impls if is_serde_trait(i.get('trait'), 'Serialize') and g.self_kind(i) == 'T']
     rep.ob('R-IMPL', len(imps) == (1 if 'Serialize' in d['derives'] else 0), g, 'Serialize impl present iff derived', {})
     for imp in imps:
         fn = g.impl_fn(imp, 'serialize')
@@ -1877,3 +1890,160 @@ def check_canonical(rep, g):
             same_shape = k1 == k2
     rep.ob('R-CANON', same_shape, g, 're-entering the constructor with a stored value evaluates the same checks on the re-sanitized value', {})
     rep.sample({'decl': decl_key(d), 'sanitizers': ops, 'twice_normal_form': twice, 'lemmas_used': sorted(used)})
+
+
+# ----------------------------------------------------------------------------- the repository's own declarations
+
+def pseudo_decl(F, mod):
+    """declaration record for a generated module found in a real crate (what the user wrote is unknown):
+    only what can be read off the expansion"""
+    name = mod['name'][len('__nutype_'):-2]
+    adt = None
+    for a in F.adts.values():
+        if a['module'] == mod['path'] and a['name'] == name:
+            adt = a
+    if adt is None or not adt['variants'] or len(adt['variants'][0]['fields']) != 1:
+        return None
+    inner = F.tys(adt['variants'][0]['fields'][0]['ty'])
+    fam = 'any'
+    if inner in ('std::string::String', 'alloc::string::String'):
+        fam = 'string'
+    elif inner in sym.INT_TYPES:
+        fam = 'int'
+    elif inner in ('f32', 'f64'):
+        fam = 'float'
+    return {'name': name, 'family': fam, 'inner': inner, 'generics': '', 'sanitizers': [], 'validators': [], 'custom': None,
+            'derives': [], 'default': None, 'const_fn': False, 'new_unchecked': False, 'vis': None, 'layout': None, 'tags': ['repo'],
+            'extra_blocks': None, 'expect': 'accept', 'note': '', 'split': None, 'unknown': True, 'crate': F.crate, 'module': mod['path']}
+
+
+TRAIT_TO_DERIVE = {'convert::TryFrom': 'TryFrom', 'str::FromStr': 'FromStr', 'str::traits::FromStr': 'FromStr', 'default::Default': 'Default',
+                   'convert::AsRef': 'AsRef', 'borrow::Borrow': 'Borrow', 'ops::Deref': 'Deref', 'ops::deref::Deref': 'Deref', 'fmt::Display': 'Display',
+                   'cmp::PartialEq': 'PartialEq', 'cmp::Eq': 'Eq', 'cmp::PartialOrd': 'PartialOrd', 'cmp::Ord': 'Ord', 'hash::Hash': 'Hash',
+                   'clone::Clone': 'Clone', 'marker::Copy': 'Copy', 'iter::IntoIterator': 'IntoIterator',
+                   'iter::traits::collect::IntoIterator': 'IntoIterator', 'Serialize': 'Serialize', 'ser::Serialize': 'Serialize',
+                   'Deserialize': 'Deserialize', 'de::Deserialize': 'Deserialize', 'Arbitrary': 'Arbitrary'}
+
+
+def infer_derives(g):
+    ds = set()
+    for i in g.impls:
+        tr = i.get('trait')
+        if not tr or g.self_kind(i) not in ('T',):
+            # From<T> for Inner  (Into)
+            if tr and tr.endswith('convert::From') and g.self_kind(i) is None and len(i.get('trait_args', [])) > 1 \
+                    and g.F.ty(i['trait_args'][1]).get('lid') == g.adt['lid']:
+                ds.add('Into')
+            continue
+        for tail_, nm in TRAIT_TO_DERIVE.items():
+            if tr == tail_ or tr.endswith('::' + tail_):
+                ds.add(nm)
+        for nm in ('Serialize', 'Deserialize'):
+            if is_serde_trait(tr, nm):
+                ds.add(nm)
+        if tr.endswith('convert::From'):
+            ds.add('From')
+    return sorted(ds)
+
+
+def decl_key_unknown(d):
+    return f"repo:{d['crate']}::{d['module']} ({d['family']}:{d['inner']})"
+
+
+def check_repo_declaration(rep, g, prop):
+    """Sigma-free structural rules on a real declaration of the repository"""
+    d = g.d
+    ex = g.ex
+    tn, nw = g.inherent_fn('try_new'), g.inherent_fn('new')
+    rep.ob('R-API', (tn is None) != (nw is None), g, 'exactly one of try_new / new exists', {})
+    fn = tn or nw
+    if fn is None:
+        return
+    hv = tn is not None
+    if hv:
+        d['custom'] = {'unknown': True}      # makes has_validation() true; Sigma-based validator rules are not used here
+    d['derives'] = infer_derives(g)
+    d['new_unchecked'] = g.inherent_fn('new_unchecked') is not None
+    if prop in ('C05', 'C01'):
+        rep.bodies.add(fn['lid'])
+        outs = g.paths(fn)
+        bad = [o for o in outs if o.kind != 'return']
+        rep.ob('R-PANIC', not [o for o in bad if o.kind == 'diverge'], g, 'constructor has no generated panic path', {'why': [o.why for o in bad][:3]})
+        rets = [o for o in outs if o.kind == 'return']
+        oks = [o for o in rets if (is_ok(o.ret) if hv else True)]
+        errs = [o for o in rets if hv and is_err(o.ret)]
+        rep.ob('R-GUARD', bool(oks) and len(oks) + len(errs) == len(rets), g, 'every return of the constructor is Ok(T(..)) / Err(..) / T(..)', {})
+        Fs = set()
+        for o in oks:
+            t = o.ret[4][0] if hv else o.ret
+            if is_adt(t) and t[1] == g.adt['path'] and len(t[4]) == 1:
+                Fs.add(t[4][0])
+            else:
+                Fs.add(('bad', t))
+        rep.ob('R-GUARD', len(Fs) == 1 and not any(x[0] == 'bad' for x in Fs), g, 'all accepting paths wrap one and the same value term', {})
+        if len(Fs) == 1:
+            Fv = next(iter(Fs))
+            # the stored value is a chain of unary transformers over the raw parameter
+            t = strip_view(ex, Fv)
+            for _ in range(64):
+                if t[0] == 'param':
+                    break
+                if t[0] == 'call' and len(t[2]) == 1:
+                    t = strip_view(ex, t[2][0])
+                    continue
+                break
+            rep.ob('R-SAN', t == ('param', 1), g, 'the stored value is a chain of unary transformers over the raw parameter', {'stuck_at': show(t)[:160]})
+            # every check on the accepting path reads the stored value only (never the raw parameter beside it)
+            for o in oks:
+                for c, v in o.conds:
+                    c2 = subst(c, {Fv: ('STORED',)})
+                    rep.ob('R-VAL', not has_param(c2) and contains(c2, ('STORED',)), g,
+                           'each check on the accepting path tests the stored (sanitized) value and nothing else', {'cond': show(c)[:200]})
+            leak = [e for o in errs for e in o.events if e[0] == 'construct' and e[1] == g.adt['path']]
+            rep.ob('R-GUARD', not leak, g, 'no T is constructed on a rejecting path', {})
+    if prop in ('C05', 'C03'):
+        check_conversions(rep, g)
+    if prop in ('C05', 'C06'):
+        check_from_str(rep, g)
+    if prop in ('C05', 'C04', 'C10'):
+        check_deserialize(rep, g)
+    if prop == 'C10':
+        check_serialize(rep, g)
+    if prop in ('C13',):
+        check_views(rep, g)
+        check_derived_cmp(rep, g)
+        check_into_inner(rep, g)
+    if prop == 'C05':
+        # visibility: field and module private; the three re-exports share one visibility
+        fld = g.adt['variants'][0]['fields']
+        rep.ob('R-VIS', len(fld) == 1 and fld[0]['vis'] == 'in:' + g.modpath, g, 'the single field is private to the generated module', {})
+        # nearest enclosing *module* (the declaration may sit inside a fn body)
+        parent = ''
+        for m in g.F.mods:
+            if m['path'] and g.modpath.startswith(m['path'] + '::') and len(m['path']) > len(parent) and m['path'] != g.modpath:
+                parent = m['path']
+        rep.ob('R-VIS', g.mod['vis'] == ('crate' if not parent else 'in:' + parent), g, 'the generated module is private to the declaring module',
+               {'vis': g.mod['vis'], 'enclosing_module': parent})
+        vis = set()
+        for u in g.F.uses:
+            for t in u['targets']:
+                if t['path'].startswith(g.modpath + '::') and not u['module'].startswith(g.modpath):
+                    nm = t['path'][len(g.modpath) + 2:]
+                    rep.ob('R-VIS', nm in (g.name, g.name + 'Error', g.name + 'ParseError'), g, f're-export `{nm}` is the type / error / parse error', {})
+                    vis.add(u['vis'])
+        rep.ob('R-VIS', len(vis) == 1, g, 'type, error and parse error are re-exported with one and the same visibility', {'vis': sorted(vis)})
+        for i in g.impls:
+            sk = g.self_kind(i)
+            tr = i.get('trait')
+            if sk and tr:
+                rep.ob('R-MUT', not any(tr.endswith(x) for x in FORBIDDEN_TRAITS) and sk != '&mut T', g, f'impl {tr} for {sk} is not a mutable view', {})
+        for f2 in g.fns:
+            if f2['kind'] == 'Closure':
+                continue
+            out = g.F.tys(f2['output'])
+            rep.ob('R-MUT', '&mut' not in out and '*mut' not in out, g, f'`{f2["name"]}` does not return a mutable reference', {})
+            if f2['unsafe']:
+                rep.ob('R-UNSAFE', f2['name'] == 'new_unchecked', g, f'unsafe fn `{f2["name"]}` is new_unchecked', {})
+        nu = g.inherent_fn('new_unchecked')
+        if nu is not None:
+            rep.ob('R-UNSAFE', nu['unsafe'], g, 'new_unchecked is an unsafe fn', {})
